@@ -21,6 +21,19 @@ theorem noSendErr_setReq {t : State} (r0 : Nat) (q0 : Req) (ht : NoSendErr t) (h
   · simp [hr] at hrq
     exact ht r q hrq
 
+theorem noSendErr_seenStep {s s' : State} {r : Nat} (h0 : NoSendErr s) (h : seenStep s r = some s') :
+    NoSendErr s' := by
+  simp only [seenStep] at h
+  split at h
+  · rename_i q hq
+    split at h
+    · split at h
+      · cases h; exact noSendErr_setReq r _ h0 (h0 r q hq)
+      · cases h; exact h0
+    · cases h
+    · cases h; exact h0
+  · cases h
+
 theorem noSendErr_step (cfg : Cfg) (hcfg : cfg.sendErrorSurfaces = false) {s s' : State} (a : Action)
     (h0 : NoSendErr s) (h : step cfg s a = some s') : NoSendErr s' := by
   cases a with
@@ -71,14 +84,19 @@ theorem noSendErr_step (cfg : Cfg) (hcfg : cfg.sendErrorSurfaces = false) {s s' 
     · cases h
   | seen r =>
     simp only [step] at h
+    exact noSendErr_seenStep h0 h
+  | rd r k =>
+    simp only [step] at h
     split at h
     · rename_i q hq
       split at h
-      · split at h
-        · cases h; exact noSendErr_setReq r _ h0 (h0 r q hq)
-        · cases h; exact h0
-      · cases h
+      · cases h; exact noSendErr_setReq r _ h0 (h0 r q hq)
       · cases h; exact h0
+    · cases h
+  | killw =>
+    simp only [step] at h
+    split at h
+    · cases h; exact h0
     · cases h
   | kill =>
     simp only [step] at h
